@@ -215,16 +215,19 @@ def check(run):
         [["override", "Pair", "A-B", "as.buck 300.0 0.3 1.0"], ["override", "Notes", "A-B", "changed"]],          # same key in two sections
         [["override", "Notes", "eq", "a=b=c"], ["override", "Potential-Form", "myform(r,a)", "if(r >= 1, a, 2*a)"]],   # values containing '='
         [["override", "Pair", "O-O", "as.buck 1.0 0.3 0.0"], ["override", "Pair", "O - O", "as.buck 2.0 0.3 0.0"]],   # two spellings of one key: both applied in order
+        [["override", "Potential-Form", "myform(r,a)", "a+r"], ["override", "Potential-Form", "myform (r ,\ta)", "a+r+1"], ["remove", "Potential-Form", "myform(r,a)"],
+         ["override", "Pair", "B-B", "as.buck 1.0 0.3 0.0"]],                                                       # one item overridden and removed under different spellings
         [["remove", "Notes", "eq"], ["remove", "Notes", "A-B"]],                                                    # removing the last keys drops the section
         [["add", "Notes", "eq ", "again"]],                                                                         # add of an existing key (trailing blank)
     ]
     cli_cases = [(scen, ["A", "B", "O"], o) for o in scenarios] + cases[: run.n(70, 1200)]
     for (secs, species, ops) in cli_cases:
         text = render(secs)
-        # command line: several -e / -r options naming the same SECTION:KEY text count once, the last one given wins (documented behaviour of the option parser)
+        # command line: several -e / -r options naming the same item (SECTION:KEY, the key modulo embedded whitespace - the property's own matching rule) count once,
+        # the last one given wins, removals after overrides (documented behaviour of the option parser)
         dd = collections.OrderedDict()
         for o in [o for o in ops if o[0] == "override"] + [o for o in ops if o[0] == "remove"]:
-            dd[(o[1], o[2])] = o
+            dd[(o[1], norm(o[2]))] = o
         spec = by_hand(secs, list(dd.values()) + [o for o in ops if o[0] == "add"])
         args = cli_args(ops)
         r1 = impl.potable_cli(text, args=args)
